@@ -65,6 +65,13 @@ Fixpoint get (c : list (key * bytes)) (k : key) : option bytes :=
   | (k', b) :: t => if key_eqb k' k then Some b else get t k
   end.
 
+Fixpoint upd_nth {A} (l : list A) (n : nat) (x : A) : list A :=
+  match l, n with
+  | [], _ => []
+  | _ :: t, O => x :: t
+  | h :: t, S n' => h :: upd_nth t n' x
+  end.
+
 Fixpoint remove_nth {A} (l : list A) (n : nat) : list A :=
   match l, n with
   | [], _ => []
@@ -86,19 +93,21 @@ Record st := mkSt {
   s_lr : bool;                       (* layer.r != nil *)
   s_tainted : bool;                  (* ghost, see above *)
   s_cache : list (key * bytes);
-  s_pend : list (key * bytes)        (* cache writers between verification and Commit *)
+  s_pend : list (key * bytes);       (* cache writers between verification and Commit *)
+  s_merge : list (N * bytes)         (* passthrough merge writers: file id, bytes written so far *)
 }.
 
-Definition init (T : toc) (d : digest) : st := mkSt T d false false false false false false [] [].
+Definition init (T : toc) (d : digest) : st := mkSt T d false false false false false false [] [] [].
 
-Definition set_verify s v := mkSt (s_toc s) (s_tocd s) v (s_decided s) (s_lasterr s) (s_handle s) (s_lr s) (s_tainted s) (s_cache s) (s_pend s).
-Definition set_decided s v := mkSt (s_toc s) (s_tocd s) (s_verify s) v (s_lasterr s) (s_handle s) (s_lr s) (s_tainted s) (s_cache s) (s_pend s).
-Definition set_lasterr s v := mkSt (s_toc s) (s_tocd s) (s_verify s) (s_decided s) v (s_handle s) (s_lr s) (s_tainted s) (s_cache s) (s_pend s).
-Definition set_handle s v := mkSt (s_toc s) (s_tocd s) (s_verify s) (s_decided s) (s_lasterr s) v (s_lr s) (s_tainted s) (s_cache s) (s_pend s).
-Definition set_lr s v := mkSt (s_toc s) (s_tocd s) (s_verify s) (s_decided s) (s_lasterr s) (s_handle s) v (s_tainted s) (s_cache s) (s_pend s).
-Definition set_tainted s v := mkSt (s_toc s) (s_tocd s) (s_verify s) (s_decided s) (s_lasterr s) (s_handle s) (s_lr s) v (s_cache s) (s_pend s).
-Definition set_cache s v := mkSt (s_toc s) (s_tocd s) (s_verify s) (s_decided s) (s_lasterr s) (s_handle s) (s_lr s) (s_tainted s) v (s_pend s).
-Definition set_pend s v := mkSt (s_toc s) (s_tocd s) (s_verify s) (s_decided s) (s_lasterr s) (s_handle s) (s_lr s) (s_tainted s) (s_cache s) v.
+Definition set_verify s v := mkSt (s_toc s) (s_tocd s) v (s_decided s) (s_lasterr s) (s_handle s) (s_lr s) (s_tainted s) (s_cache s) (s_pend s) (s_merge s).
+Definition set_decided s v := mkSt (s_toc s) (s_tocd s) (s_verify s) v (s_lasterr s) (s_handle s) (s_lr s) (s_tainted s) (s_cache s) (s_pend s) (s_merge s).
+Definition set_lasterr s v := mkSt (s_toc s) (s_tocd s) (s_verify s) (s_decided s) v (s_handle s) (s_lr s) (s_tainted s) (s_cache s) (s_pend s) (s_merge s).
+Definition set_handle s v := mkSt (s_toc s) (s_tocd s) (s_verify s) (s_decided s) (s_lasterr s) v (s_lr s) (s_tainted s) (s_cache s) (s_pend s) (s_merge s).
+Definition set_lr s v := mkSt (s_toc s) (s_tocd s) (s_verify s) (s_decided s) (s_lasterr s) (s_handle s) v (s_tainted s) (s_cache s) (s_pend s) (s_merge s).
+Definition set_tainted s v := mkSt (s_toc s) (s_tocd s) (s_verify s) (s_decided s) (s_lasterr s) (s_handle s) (s_lr s) v (s_cache s) (s_pend s) (s_merge s).
+Definition set_cache s v := mkSt (s_toc s) (s_tocd s) (s_verify s) (s_decided s) (s_lasterr s) (s_handle s) (s_lr s) (s_tainted s) v (s_pend s) (s_merge s).
+Definition set_pend s v := mkSt (s_toc s) (s_tocd s) (s_verify s) (s_decided s) (s_lasterr s) (s_handle s) (s_lr s) (s_tainted s) (s_cache s) v (s_merge s).
+Definition set_merge s v := mkSt (s_toc s) (s_tocd s) (s_verify s) (s_decided s) (s_lasterr s) (s_handle s) (s_lr s) (s_tainted s) (s_cache s) (s_pend s) v.
 
 Inductive op :=
 | Decide
@@ -109,7 +118,13 @@ Inductive op :=
 | PfCheck (pre : bool) (f : N) (i : nat) (b : bytes)
 | OdCheck (pre : bool) (f : N) (i : nat) (b : bytes)
 | Commit (i : nat)
-| Evict (k : key).
+| Evict (k : key)
+(* passthrough merge (GetPassthroughFd -> prefetchEntireFileSequential / prefetchEntireFile+processBatchChunks) *)
+| MgStart (f : N)                          (* cache.Add(entireCacheID): a new merge writer *)
+| MgHit (m : nat) (i : nat)                (* chunk i is fully in the cache: its bytes are appended unverified *)
+| MgFetch (m : nat) (i : nat) (b : bytes)  (* chunk i fetched: verifyOneChunk, then appended *)
+| MgCommit (m : nat) (z : Z)               (* w.Commit(): the merged bytes become the cache entry genID(id, 0, z) *)
+| MgAbort (m : nat).
 
 Inductive out := OOk | OErr | ONone.
 
@@ -128,6 +143,7 @@ Inductive hop :=
 | HCache (l : list (N * nat * option fetch))               (* VerifiableReader.Cache() *)
 | HRead (f : N) (off len : Z) (fs : list fetch)            (* OpenFile(f).ReadAt(make([]byte,len), off) *)
 | HProbe (f : N) (i : nat)                                 (* look at the cache entry of a chunk *)
+| HPass (f : N) (buf : Z) (fts : list (nat * fetch))       (* OpenFile(f).GetPassthroughFd(buf, workers), then the file's content *)
 | HAtom (o : op).                                          (* a sub-step scheduled by the harness *)
 
 Inductive hout := HO (o : out) | HR (r : rres) | HB (b : option bytes).
@@ -184,6 +200,42 @@ Definition step (s : st) (o : op) : st * out :=
       | None => (s, ONone)
       end
   | Evict k => (set_cache s (filter (fun e => negb (key_eqb (fst e) k)) (s_cache s)), ONone)
+  | MgStart f =>
+      if negb (s_handle s) then (s, ONone)            (* GetPassthroughFd is a method of an opened file *)
+      else (set_merge s (s_merge s ++ [(f, [])]), OOk)
+  | MgHit m i =>
+      match nth_error (s_merge s) m with
+      | None => (s, ONone)
+      | Some (f, acc) =>
+          match chunk_at (s_toc s) f i with
+          | None => (s, ONone)
+          | Some c =>
+              match get (s_cache s) (key_of f c) with
+              | Some b => if zlen b =? c_size c then (set_merge s (upd_nth (s_merge s) m (f, acc ++ b)), OOk) else (s, OErr)
+              | None => (s, OErr)
+              end
+          end
+      end
+  | MgFetch m i b =>
+      match nth_error (s_merge s) m with
+      | None => (s, ONone)
+      | Some (f, acc) =>
+          match chunk_at (s_toc s) f i with
+          | None => (s, ONone)
+          | Some c =>
+              if negb (s_handle s) then (s, ONone)
+              else if s_verify s then
+                if check false c b then (set_merge s (upd_nth (s_merge s) m (f, acc ++ b)), OOk) else (s, OErr)
+              else (set_merge (set_tainted s (s_tainted s || negb (good (s_toc s) (key_of f c) b)))
+                              (upd_nth (s_merge s) m (f, acc ++ b)), OOk)
+          end
+      end
+  | MgCommit m z =>
+      match nth_error (s_merge s) m with
+      | Some (f, acc) => (set_merge (set_cache s (((f, 0, z), acc) :: s_cache s)) (remove_nth (s_merge s) m), ONone)
+      | None => (s, ONone)
+      end
+  | MgAbort m => (set_merge s (remove_nth (s_merge s) m), ONone)
   end.
 
 Definition exec (s : st) (os : list op) : st := fold_left (fun s o => fst (step s o)) os s.
@@ -348,6 +400,80 @@ Definition read_at (s : st) (f : N) (off len : Z) (fs : list fetch) : st * rres 
   if negb (s_handle s) then (s, RErr)
   else read_loop (2 * Z.to_nat len + 4) s f off len 0 [] fs.
 
+(* the chunk enumeration of GetPassthroughFd: ChunkEntryForOffset(0), then at the end of each chunk found *)
+Fixpoint enum_chunks (fuel : nat) (T : toc) (f : N) (off : Z) : option (list (nat * chunk)) :=
+  match fuel with
+  | O => None
+  | S fuel' =>
+      match chunk_for T f off with
+      | None => Some []
+      | Some (i, c) => match enum_chunks fuel' T f (c_off c + c_size c) with
+                       | Some l => Some ((i, c) :: l)
+                       | None => None
+                       end
+      end
+  end.
+
+Fixpoint find_fetch (fts : list (nat * fetch)) (i : nat) : option fetch :=
+  match fts with
+  | [] => None
+  | (j, ft) :: t => if Nat.eqb j i then Some ft else find_fetch t i
+  end.
+
+(* the per-chunk loop of prefetchEntireFileSequential (seq = true) / processBatchChunks (seq = false) on merge writer m *)
+Fixpoint merge_loop (s : st) (m : nat) (seq : bool) (cs : list (nat * chunk)) (fts : list (nat * fetch)) : st * rres :=
+  match cs with
+  | [] => (s, ROk [])
+  | (i, c) :: t =>
+      let '(s1, r) := step s (MgHit m i) in
+      match r with
+      | OOk => merge_loop s1 m seq t fts
+      | _ =>
+          match find_fetch fts i with
+          | None => (s1, RDesync)
+          | Some ft =>
+              match od_fetch s1 ft with
+              | (s2, None) => (s2, RErr)
+              | (s2, Some (n, ip)) =>
+                  if negb seq && negb (n =? c_size c) then (s2, RErr)       (* checkHoles *)
+                  else let '(s3, r3) := step s2 (MgFetch m i ip) in
+                       match r3 with
+                       | OOk => merge_loop s3 m seq t fts
+                       | _ => (s3, RErr)
+                       end
+              end
+          end
+      end
+  end.
+
+Definition sum_sizes (cs : list (nat * chunk)) : Z := fold_right (fun ic a => c_size (snd ic) + a) 0 cs.
+
+(* file.GetPassthroughFd followed by reading the whole cached file it hands out *)
+Definition pass_fd (s : st) (f : N) (buf : Z) (fts : list (nat * fetch)) : st * rres :=
+  if negb (s_handle s) then (s, RErr)
+  else match enum_chunks (S (length (file_chunks (s_toc s) f))) (s_toc s) f 0 with
+       | None => (s, RDesync)
+       | Some cs =>
+           let total := sum_sizes cs in
+           let k := (f, 0, total) in
+           match get (s_cache s) k with
+           | Some b => (s, ROk b)
+           | None =>
+               (* a chunk larger than the merge buffer, or (C01-fix-2) one that straddles a batch boundary: sequential path *)
+               let seq := existsb (fun ic => let c := snd ic in
+                                             (buf <? c_size c) ||
+                                             ((0 <? buf) && negb (c_off c / buf =? (c_off c + c_size c - 1) / buf))) cs in
+               let m := length (s_merge s) in
+               let '(s0, r0) := step s (MgStart f) in
+               match merge_loop s0 m seq cs fts with
+               | (s1, ROk _) =>
+                   let s2 := fst (step s1 (MgCommit m total)) in
+                   (s2, match get (s_cache s2) k with Some b => ROk b | None => RErr end)
+               | (s1, r) => (fst (step s1 (MgAbort m)), r)
+               end
+           end
+       end.
+
 Definition probe (s : st) (f : N) (i : nat) : option bytes :=
   match chunk_at (s_toc s) f i with
   | Some c => get (s_cache s) (key_of f c)
@@ -364,6 +490,7 @@ Definition hstep (s : st) (h : hop) : st * hout :=
   | HCache l => let '(s1, r) := cache_all s l OOk in (s1, HO r)
   | HRead f off len fs => let '(s1, r) := read_at s f off len fs in (s1, HR r)
   | HProbe f i => (s, HB (probe s f i))
+  | HPass f buf fts => let '(s1, r) := pass_fd s f buf fts in (s1, HR r)
   | HAtom o => let '(s1, r) := step s o in (s1, HO r)
   end.
 
